@@ -215,6 +215,7 @@ def check_component(ctx, cell, case):
         return
     ctx.ev()
     ctx.check(np.array_equal(X, X0), "C20.d_input_unmodified", cell, ccase, None, None, "component modified its input tensor", CHK)
+    full_view, full = full, full.copy()  # full_view shares memory with the tensor the component returned
     exp = np.stack(singles)
     if not same(full, exp):
         bad = next((i for i in range(rows) if full.shape[0] == rows and not same(full[i], exp[i])), None)
@@ -324,6 +325,8 @@ def check_component(ctx, cell, case):
             ctx.ev()
             good = o.size == ref.size and same(o.reshape(ref.shape), ref)
             ctx.check(good, "C20.b_layout_noncontiguous", cell, {**ccase, "view": vname}, list(o.shape), list(ref.shape), "a non-contiguous view of the same values is answered differently from the contiguous tensor", CHK)
+    # the tensor returned by the first batch call must still hold its values after all the later calls on the same object
+    ctx.check(same(full_view, full), "C20.e_output_not_overwritten", cell, ccase, None, None, "a result returned earlier was overwritten by a later call (the component hands out its internal buffer)", CHK)
     ctx.cls("components_" + cell.get("component", "?").split("_")[0])
     if len(ctx.samples) < 2:
         ctx.sample({"component": name, "rows": rows, "input_shape": list(X.shape), "output_shape": list(full.shape)})
